@@ -223,6 +223,14 @@ class SimpleHeatPumpCycle:
             self._state.update(CoolProp.PT_INPUTS, p, T)          
         except:
             self._state.update(CoolProp.PQ_INPUTS, p, phase) # Close to saturated liquid/vapour  
+            return self._state
+        if p < self._p_crit:
+            # On the saturation line a PT flash is ambiguous and may silently return the other phase
+            h = self._state.hmass()
+            self._state.update(CoolProp.PQ_INPUTS, p, phase)
+            is_wrong_side = h < self._state.hmass() if phase == 1.0 else h > self._state.hmass()
+            if not is_wrong_side:
+                self._state.update(CoolProp.PT_INPUTS, p, T)
         return self._state
     
 
@@ -253,10 +261,7 @@ class SimpleHeatPumpCycle:
         T: float, 
         dT_sc: float,
     ) -> CoolProp.AbstractState:
-        try:
-            self._state.update(CoolProp.PT_INPUTS, p, T)
-        except:
-            self._state.update(CoolProp.PQ_INPUTS, p, 0.0) # Close to saturated liquid
+        self._compute_state_from_pressure_temperature(p, T, phase=0.0)
         
         if self._state.hmass() > self._cycle_states[0, 'H']:
             self._state.update(CoolProp.HmassP_INPUTS, self._cycle_states[0, 'H'], p)
